@@ -149,6 +149,21 @@ def cbc(case, ctx):
         r, t, p = _cbc_unprotect(l, h, dk, s2.to_bytes(8, "big"), rec)
         ctx.case(nontrivial=True, classes=["cbc-edit:seq"], ident=["seq"] + ident + [s2])
         ctx.check(r != 1, "tls_record_decrypt accepts a record under sequence number %d instead of %d" % (s2, case["seq"]), "cbc/accepts/other-seq")
+    # correctly keyed, model-encrypted bodies whose (self-consistent) padding leaves too little or just enough room for
+    # the MAC: every padding length around the boundary L-32, L-33 for several body lengths L; the MAC cannot match
+    ivb = _bytes("biv%d" % seed, 16)
+    for L in (48, 64, 80, 16 * (3 + case["pad_extra"]), 272):
+        for p in sorted({L - 1, L - 31, L - 32, L - 33, L - 34, L - 48, 0, 15, 255} & set(range(0, 256))):
+            if p + 1 > L:
+                continue
+            pt = _bytes("fill%d/%d" % (seed, L), L - p - 1) + bytes([p]) * (p + 1)
+            body = ivb + R.blk.cbc("sm4", enc_key, ivb, pt, enc=True)
+            bad = bytes([rtype]) + ver + len(body).to_bytes(2, "big") + body
+            r, t, pl = _cbc_unprotect(l, h, dk, seq, bad)
+            ctx.case(nontrivial=True, classes=["cbc-edit:crafted-padding"], ident=["pad", L, p, seed % 4])
+            ctx.check(r != 1, "record with crafted padding accepted: body %d bytes, padding_len %d (room left for MAC+data: %d bytes), ret=%s outlen=%s" %
+                      (L, p, L - p - 1, r, pl if not isinstance(pl, bytes) else len(pl)),
+                      "cbc/accepts/crafted-padding/" + ("no-room" if L - p - 1 < 32 else "room"))
     # model-made record whose padding leaves no room for the MAC, and one whose padding bytes are inconsistent
     body = _bytes("bad%d" % seed, 16) + R.blk.cbc("sm4", enc_key, _bytes("bad%d" % seed, 16), bytes([47]) * 48, enc=True)
     bad = bytes([rtype]) + ver + len(body).to_bytes(2, "big") + body
